@@ -208,6 +208,10 @@ def run(model, R):
         d = fn.defaults()
         for p in ('make_object_label', 'make_property_label'):
             R.check(p in d and src(d[p]) == "' '.join", 'API-DEFAULT', fn, d.get(p) or fn.node, f'{p} default', "' '.join", src(d.get(p)))
+    # "precisely when the concept carries objects/properties in the reduced labelling, from exactly those names": the labels
+    # drawn are the ones Lattice._annotate computed (C10's labelling rules are a dependency)
+    from . import c10
+    R.guard('LABELLING', None, '_annotate', c10.annotate_rules, model, R)
     return __doc__.strip()
 
 
